@@ -1,8 +1,10 @@
 package referenceserver
 
-// C17 unit 4: the real reference server (RunInReferenceMode: CORS, request
-// checks, rawResponder, connect-go handlers with the rawResponseRecorder
-// interceptor) on loopback HTTP/1.1 and h2c.  The RawHTTPResponse travels in
+// C17 unit 4: the real reference server (RunInReferenceMode -> createServer:
+// CORS, rawResponder, request checks, connect-go handlers with the
+// rawResponseRecorder interceptor) on loopback HTTP/1.1, h2c (x/net) and HTTP/2
+// over TLS (net/http's bundled HTTP/2 server), with and without an Origin
+// request header (which makes CORS pre-set its Access-Control-* headers).  The RawHTTPResponse travels in
 // the response_definition of the first request message of a Connect-protocol
 // call of each stream type, sent by a plain net/http client.  Here the
 // "handler" is connect-go itself: it answers the recorder's "use raw response
@@ -12,12 +14,14 @@ import (
 	"bytes"
 	"context"
 	"crypto/tls"
+	"crypto/x509"
 	"encoding/binary"
 	"encoding/json"
 	"fmt"
 	"io"
 	"net"
 	"net/http"
+	"strconv"
 	"strings"
 	"testing"
 	"time"
@@ -32,8 +36,9 @@ import (
 )
 
 type c17sCase struct {
-	Proto      string          `json:"proto"`       // h1 | h2c
-	StreamType string          `json:"stream_type"` // unary | client | server | bidi
+	Proto      string          `json:"proto"`            // h1 | h2c | h2tls
+	StreamType string          `json:"stream_type"`      // unary | client | server | bidi
+	Origin     string          `json:"origin,omitempty"` // value of the Origin request header ("" = none): makes the CORS middleware set its Access-Control-* headers
 	Raw        json.RawMessage `json:"raw"`
 }
 
@@ -50,13 +55,13 @@ type c17sDiscard struct{}
 func (c17sDiscard) Write(p []byte) (int, error) { return len(p), nil }
 func (c17sDiscard) Close() error                { return nil }
 
-func c17sStart(name string, version conformancev1.HTTPVersion) (*c17sServer, error) {
+func c17sStart(name string, version conformancev1.HTTPVersion, useTLS bool) (*c17sServer, error) {
 	codec := internal.NewCodec(false)
 	var stdin bytes.Buffer
 	if err := codec.NewEncoder(&stdin).Encode(&conformancev1.ServerCompatRequest{
 		Protocol:    conformancev1.Protocol_PROTOCOL_CONNECT,
 		HttpVersion: version,
-		UseTls:      false,
+		UseTls:      useTLS, // true: the server makes its own certificate and serves HTTP/2 with net/http's bundled implementation
 	}); err != nil {
 		return nil, err
 	}
@@ -75,7 +80,27 @@ func c17sStart(name string, version conformancev1.HTTPVersion) (*c17sServer, err
 	}
 	go func() { _, _ = io.Copy(io.Discard, outR) }()
 	s.url = fmt.Sprintf("http://%s:%d", resp.GetHost(), resp.GetPort())
-	if version == conformancev1.HTTPVersion_HTTP_VERSION_2 {
+	if useTLS {
+		s.url = fmt.Sprintf("https://%s:%d", resp.GetHost(), resp.GetPort())
+		pool := x509.NewCertPool()
+		if !pool.AppendCertsFromPEM(resp.GetPemCert()) {
+			cancel()
+			return nil, fmt.Errorf("ServerCompatResponse.pem_cert is not a PEM certificate")
+		}
+		// the certificate names no host: the chain is verified against the pool, the name is not
+		conf := &tls.Config{
+			InsecureSkipVerify: true, //nolint:gosec
+			NextProtos:         []string{"h2"},
+			VerifyConnection: func(cs tls.ConnectionState) error {
+				if len(cs.PeerCertificates) == 0 {
+					return fmt.Errorf("no server certificate")
+				}
+				_, err := cs.PeerCertificates[0].Verify(x509.VerifyOptions{Roots: pool})
+				return err
+			},
+		}
+		s.client = &http.Client{Transport: &http2.Transport{TLSClientConfig: conf, DisableCompression: true}}
+	} else if version == conformancev1.HTTPVersion_HTTP_VERSION_2 {
 		s.client = &http.Client{Transport: &http2.Transport{
 			AllowHTTP:          true,
 			DisableCompression: true,
@@ -144,7 +169,7 @@ func c17sRequest(streamType string, raw *conformancev1.RawHTTPResponse) (path, c
 	panic("unknown stream type " + streamType)
 }
 
-func c17sRun(srv *c17sServer, streamType string, raw *conformancev1.RawHTTPResponse) c17rObs {
+func c17sRun(srv *c17sServer, streamType, origin string, raw *conformancev1.RawHTTPResponse) c17rObs {
 	var obs c17rObs
 	path, contentType, body := c17sRequest(streamType, raw)
 	ctx, cancel := context.WithTimeout(context.Background(), 30*time.Second) // liveness guard only
@@ -155,9 +180,13 @@ func c17sRun(srv *c17sServer, streamType string, raw *conformancev1.RawHTTPRespo
 		return obs
 	}
 	httpVersion := "1"
-	if srv.name == "h2c" {
+	if srv.name != "h1" {
 		httpVersion = "2"
 	}
+	if origin != "" {
+		req.Header.Set("Origin", origin)
+	}
+	req.Header.Set("X-Expect-Tls", strconv.FormatBool(srv.name == "h2tls"))
 	req.Header.Set("Content-Type", contentType)
 	req.Header.Set("Connect-Protocol-Version", "1")
 	req.Header.Set("X-Test-Case-Name", "c17/"+streamType)
@@ -187,7 +216,17 @@ var (
 	c17sHandlerBodyMarker   = []byte("use raw response instead")
 )
 
-func c17sJudge(raw *conformancev1.RawHTTPResponse, obs c17rObs) (out []c17rVerdict) {
+func c17sCORSOwned(name string) bool {
+	for _, n := range c17lib.CORSHeaderNames {
+		if n == name {
+			return true
+		}
+	}
+	return false
+}
+
+func c17sJudge(protoName, origin string, raw *conformancev1.RawHTTPResponse, obs c17rObs) (out []c17rVerdict) {
+	h2 := protoName != "h1"
 	add := func(key, format string, a ...any) {
 		out = append(out, c17rVerdict{key, fmt.Sprintf(format, a...)})
 	}
@@ -206,6 +245,19 @@ func c17sJudge(raw *conformancev1.RawHTTPResponse, obs c17rObs) (out []c17rVerdi
 	}
 	hdrEntries, trlEntries := c17lib.Entries(raw.GetHeaders()), c17lib.Entries(raw.GetTrailers())
 	for name, vals := range rawHeaders {
+		if c17rSuppressed(h2, wantStatus, name) {
+			continue
+		}
+		if c17sCORSOwned(name) {
+			// The CORS middleware in front of rawResponder sets this header itself
+			// (Vary always, the Access-Control-* ones when the request has an
+			// Origin): its values are tolerated next to the given ones, but every
+			// given value must be on the wire, in list order.  For no other name.
+			if got := obs.Header.Values(name); !c17lib.Subsequence(vals, got) {
+				add("reference-server:middleware-header-clobbers-given", "header %s (also set by the CORS middleware in front of rawResponder; request Origin=%q): got %q, which does not contain the specified values %q in list order", name, origin, got, vals)
+			}
+			continue
+		}
 		if got := obs.Header.Values(name); !c17lib.EqualStrings(got, vals) {
 			if hdrEntries[name] > 1 {
 				add("reference-server:header-named-in-several-entries", "header %s is named in %d entries of the list: got %q, specified %q (all values, in list order)", name, hdrEntries[name], got, vals)
@@ -234,7 +286,9 @@ func c17sJudge(raw *conformancev1.RawHTTPResponse, obs c17rObs) (out []c17rVerdi
 	if bytes.Contains(obs.Body, c17sHandlerBodyMarker) {
 		add("reference-server:handler-body-leaks", "the RPC handler's own error body is in the raw response body %q", obs.Body)
 	}
-	if !c17rBodyAllowed(wantStatus) {
+	bodyAllowed := c17rBodyAllowed(wantStatus)
+	if !bodyAllowed && !h2 {
+		// 204 / 304 over HTTP/1.1: no body, hence no chunked encoding, hence no trailers
 		return out
 	}
 	for name, vals := range rawTrailers {
@@ -243,6 +297,8 @@ func c17sJudge(raw *conformancev1.RawHTTPResponse, obs c17rObs) (out []c17rVerdi
 		case c17lib.EqualStrings(got, vals):
 		case len(rawHeaders[name]) > 0 && c17lib.EqualStrings(got, append(append([]string{}, vals...), rawHeaders[name]...)):
 			add("reference-server:trailer-repeats-header-values", "trailer %s: got %q, specified %q: the values of the response HEADER of the same name were sent again as trailer values", name, got, vals)
+		case !bodyAllowed && len(got) < len(vals):
+			add("reference-server:trailer-missing-on-bodyless-status", "status %d (no body possible) over %s: trailer %s: got %q, specified %q (all trailers received: %v)", wantStatus, obs.Proto, name, got, vals, obs.Trailer)
 		case trlEntries[name] > 1:
 			add("reference-server:trailer-named-in-several-entries", "trailer %s is named in %d entries of the list: got %q, specified %q (all values, in list order; all trailers received: %v)", name, trlEntries[name], got, vals, obs.Trailer)
 		case len(got) < len(vals):
@@ -250,6 +306,9 @@ func c17sJudge(raw *conformancev1.RawHTTPResponse, obs c17rObs) (out []c17rVerdi
 		default:
 			add("reference-server:trailer-wrong", "trailer %s: got %q, specified %q (all trailers received: %v)", name, got, vals, obs.Trailer)
 		}
+	}
+	if !bodyAllowed {
+		return out // over HTTP/2 the trailers of a 204 / 304 are demanded, a body cannot be
 	}
 	switch b := raw.GetBody().(type) {
 	case nil:
@@ -269,11 +328,12 @@ func c17sJudge(raw *conformancev1.RawHTTPResponse, obs c17rObs) (out []c17rVerdi
 }
 
 var (
-	c17sProtos      = []string{"h1", "h2c"}
+	c17sProtos      = []string{"h1", "h2c", "h2tls"}
 	c17sStreamTypes = []string{"unary", "client", "server", "bidi"}
+	c17sOrigins     = []string{"", "https://c17-browser.example"}
 )
 
-func c17sEnumerate(thorough bool, visit func(grid, proto, streamType string, raw *conformancev1.RawHTTPResponse) bool) {
+func c17sEnumerate(thorough bool, visit func(grid, proto, streamType, origin string, raw *conformancev1.RawHTTPResponse) bool) {
 	// grid E: status/header/trailer combinations x medium body set
 	envs := c17rEnvs(false, 1)
 	if thorough {
@@ -284,8 +344,41 @@ func c17sEnumerate(thorough bool, visit func(grid, proto, streamType string, raw
 			raw := c17rMake(e, b)
 			for _, st := range c17sStreamTypes {
 				for _, p := range c17sProtos {
-					if !visit("E", p, st, raw) {
+					if !visit("E", p, st, "", raw) {
 						return
+					}
+				}
+			}
+		}
+	}
+	// grid M: the raw response names headers (and trailers) that the middleware in
+	// front of rawResponder (CORS) sets itself, with and without the Origin request
+	// header that makes it set all four of them
+	lvl := 0
+	if thorough {
+		lvl = 1
+	}
+	otl := c17lib.OuterTrailerLists(lvl)
+	rests := []c17rEnv{{0, nil, nil}, {404, nil, otl[1]}, {0, nil, otl[2]}}
+	if thorough {
+		rests = append(rests, c17rEnv{204, nil, otl[3]}, c17rEnv{500, nil, otl[4]})
+	}
+	mHeaders := append([][]*conformancev1.Header{}, c17lib.OuterHeaderLists(lvl)...)
+	mHeaders = append(mHeaders, nil) // only the trailers carry a middleware-owned name
+	for _, h := range mHeaders {
+		for _, rest := range rests {
+			if h == nil && rest.trailers == nil {
+				continue
+			}
+			for _, b := range c17lib.Bodies(0) {
+				raw := c17rMake(c17rEnv{rest.status, h, rest.trailers}, b)
+				for _, origin := range c17sOrigins {
+					for _, st := range c17sStreamTypes {
+						for _, p := range c17sProtos {
+							if !visit("M", p, st, origin, raw) {
+								return
+							}
+						}
 					}
 				}
 			}
@@ -298,7 +391,7 @@ func c17sEnumerate(thorough bool, visit func(grid, proto, streamType string, raw
 			raw := c17rMake(e, b)
 			for _, st := range c17sStreamTypes {
 				for _, p := range c17sProtos {
-					if !visit("B", p, st, raw) {
+					if !visit("B", p, st, "", raw) {
 						return
 					}
 				}
@@ -310,15 +403,41 @@ func c17sEnumerate(thorough bool, visit func(grid, proto, streamType string, raw
 func TestVerifC17ReferenceServer(t *testing.T) {
 	r := rep.New("c17-refserver")
 	defer r.Write()
-	r.Rule = "case = (protocol h1|h2c) x (stream type unary|client|server|bidi half-duplex, Connect protocol, proto codec) x RawHTTPResponse carried in response_definition.raw_response of the first request message; grid E = status/header/trailer combinations (12 quick, 125 thorough; incl. header and trailer lists that name the same header / trailer in two entries) x medium body set, grid B (thorough) = full body alphabet x one status/header/trailer combination; distinct (proto, stream type, definition) = non-trivial; oracle as in unit c17-rawresp with connect-go's own response (Server/Accept-Encoding/Content-Type headers, 'use raw response instead' error body) as the handler output that must not appear"
+	r.Rule = "case = (server environment h1 | h2c (x/net h2c server) | h2tls (net/http's bundled HTTP/2 server, own certificate), each the complete chain of createServer: CORS -> rawResponder -> request checks -> connect-go) x (stream type unary|client|server|bidi half-duplex, Connect protocol, proto codec) x (Origin request header absent|present) x RawHTTPResponse carried in response_definition.raw_response of the first request message; grid E = status/header/trailer combinations (17 quick incl. 204 and 304 with trailers, 150 thorough; incl. header and trailer lists that name the same header / trailer in two entries) x medium body set, grid M = header lists (and trailer lists) that name what the CORS middleware sets itself before rawResponder runs (Vary, Access-Control-Allow-Origin / -Expose-Headers / -Allow-Credentials; other case spellings; one entry, two entries) x with/without Origin: every given value must be on the wire in list order, the middleware's own values are tolerated for those four names only; grid B (thorough) = full body alphabet x one status/header/trailer combination; status 204/304 over HTTP/2: status, headers and trailers demanded (the body is refused by the server's ResponseWriter); distinct (environment, stream type, origin, definition) = non-trivial; oracle as in unit c17-rawresp with connect-go's own response (Server/Accept-Encoding/Content-Type headers, 'use raw response instead' error body) as the handler output that must not appear"
 
 	servers := map[string]*c17sServer{}
-	for name, v := range map[string]conformancev1.HTTPVersion{"h1": conformancev1.HTTPVersion_HTTP_VERSION_1, "h2c": conformancev1.HTTPVersion_HTTP_VERSION_2} {
-		s, err := c17sStart(name, v)
-		if err != nil {
-			t.Fatalf("cannot start reference server (%s): %v", name, err)
+	{
+		type started struct {
+			s   *c17sServer
+			err error
 		}
-		servers[name] = s
+		versions := map[string]conformancev1.HTTPVersion{"h1": conformancev1.HTTPVersion_HTTP_VERSION_1, "h2c": conformancev1.HTTPVersion_HTTP_VERSION_2, "h2tls": conformancev1.HTTPVersion_HTTP_VERSION_2}
+		results := map[string]chan started{}
+		for name, v := range versions {
+			ch := make(chan started, 1)
+			results[name] = ch
+			go func() {
+				s, err := c17sStart(name, v, name == "h2tls")
+				ch <- started{s, err}
+			}()
+		}
+		var firstErr error
+		for name, ch := range results {
+			st := <-ch
+			if st.err != nil {
+				if firstErr == nil {
+					firstErr = fmt.Errorf("cannot start reference server (%s): %w", name, st.err)
+				}
+				continue
+			}
+			servers[name] = st.s
+		}
+		if firstErr != nil {
+			for _, s := range servers {
+				s.stop()
+			}
+			t.Fatal(firstErr)
+		}
 	}
 	defer func() {
 		for _, s := range servers {
@@ -326,13 +445,16 @@ func TestVerifC17ReferenceServer(t *testing.T) {
 		}
 	}()
 
-	evalOne := func(protoName, streamType string, raw *conformancev1.RawHTTPResponse, verbose bool) []c17rVerdict {
+	evalOne := func(protoName, streamType, origin string, raw *conformancev1.RawHTTPResponse, verbose bool) []c17rVerdict {
 		srv := servers[protoName]
-		obs := c17sRun(srv, streamType, raw)
-		verdicts := c17sJudge(raw, obs)
+		if srv == nil {
+			return []c17rVerdict{{"reference-server:transport-error", "no such server environment: " + protoName}}
+		}
+		obs := c17sRun(srv, streamType, origin, raw)
+		verdicts := c17sJudge(protoName, origin, raw, obs)
 		if len(verdicts) > 0 {
 			srv.client.CloseIdleConnections()
-			again := c17sJudge(raw, c17sRun(srv, streamType, raw))
+			again := c17sJudge(protoName, origin, raw, c17sRun(srv, streamType, origin, raw))
 			keys := map[string]bool{}
 			for _, v := range again {
 				keys[v.key] = true
@@ -342,7 +464,7 @@ func TestVerifC17ReferenceServer(t *testing.T) {
 				if keys[v.key] {
 					kept = append(kept, v)
 				} else {
-					r.Note("UNSTABLE verdict %s on proto=%s stream=%s raw=%s: %s", v.key, protoName, streamType, c17lib.Short(raw), v.detail)
+					r.Note("UNSTABLE verdict %s on proto=%s stream=%s origin=%q raw=%s: %s", v.key, protoName, streamType, origin, c17lib.Short(raw), v.detail)
 					r.Count("unstable", 1)
 				}
 			}
@@ -356,12 +478,18 @@ func TestVerifC17ReferenceServer(t *testing.T) {
 			bodyKind = "stream"
 		}
 		cls := fmt.Sprintf("%s/%s/status%d/%s/trailers%d", obs.Proto, streamType, obs.Status, bodyKind, len(obs.Trailer))
+		if protoName == "h2tls" {
+			cls = "tls+" + cls
+		}
+		if origin != "" {
+			cls += "/with-origin"
+		}
 		if obs.Err != "" {
 			cls = protoName + "/" + streamType + "/transport-error"
 		}
 		r.Outcome(cls)
 		if verbose {
-			fmt.Printf("replay: proto=%s stream=%s raw=%s\nobserved: %+v\nbody=%x\nverdicts=%v\n", protoName, streamType, c17lib.JSON(raw), obs, obs.Body, verdicts)
+			fmt.Printf("replay: proto=%s stream=%s origin=%q raw=%s\nobserved: %+v\nbody=%x\nverdicts=%v\n", protoName, streamType, origin, c17lib.JSON(raw), obs, obs.Body, verdicts)
 		}
 		return verdicts
 	}
@@ -381,7 +509,7 @@ func TestVerifC17ReferenceServer(t *testing.T) {
 		r.NonTrivial("")
 		r.NonTrivial("")
 		r.Sample(rj.Replay)
-		for _, v := range evalOne(rj.Replay.Proto, rj.Replay.StreamType, raw, true) {
+		for _, v := range evalOne(rj.Replay.Proto, rj.Replay.StreamType, rj.Replay.Origin, raw, true) {
 			r.Violate(v.key, v.detail, rj.Replay)
 		}
 		return
@@ -389,7 +517,7 @@ func TestVerifC17ReferenceServer(t *testing.T) {
 
 	deadline := rep.Deadline()
 	var k int64
-	c17sEnumerate(rep.Thorough(), func(grid, protoName, streamType string, raw *conformancev1.RawHTTPResponse) bool {
+	c17sEnumerate(rep.Thorough(), func(grid, protoName, streamType, origin string, raw *conformancev1.RawHTTPResponse) bool {
 		k++
 		if !r.Mine(k) {
 			return true
@@ -398,16 +526,16 @@ func TestVerifC17ReferenceServer(t *testing.T) {
 			r.NotExhaustive("budget reached in grid " + grid + " before the enumeration was complete")
 			return false
 		}
-		verdicts := evalOne(protoName, streamType, raw, false)
+		verdicts := evalOne(protoName, streamType, origin, raw, false)
 		r.Eval(1)
 		r.Count("grid:"+grid, 1)
-		c := c17sCase{Proto: protoName, StreamType: streamType, Raw: c17lib.JSON(raw)}
-		r.NonTrivial(strings.Join([]string{protoName, streamType, string(c.Raw)}, "|"))
+		c := c17sCase{Proto: protoName, StreamType: streamType, Origin: origin, Raw: c17lib.JSON(raw)}
+		r.NonTrivial(strings.Join([]string{protoName, streamType, origin, string(c.Raw)}, "|"))
 		if k%503 == 1 {
 			r.Sample(c)
 		}
 		for _, v := range verdicts {
-			r.Violate(v.key, fmt.Sprintf("proto=%s stream-type=%s raw=%s: %s", protoName, streamType, c17lib.Short(raw), v.detail), c)
+			r.Violate(v.key, fmt.Sprintf("proto=%s stream-type=%s request-origin=%q raw=%s: %s", protoName, streamType, origin, c17lib.Short(raw), v.detail), c)
 		}
 		return true
 	})
